@@ -81,8 +81,9 @@ func main() {
 	if err != nil {
 		panic(err)
 	}
-	w.Meta.Rule = "one case = one chunk compiled by parse.Parse+lua.Compile, every prototype of it dumped (Code, constant kinds vs stringConstants, nested prototypes, counts) and checked by wf_proto in Coq; " +
+	w.Meta.Rule = "one case = one chunk compiled by parse.Parse+lua.Compile, every prototype of it dumped (Code, constant kinds vs stringConstants, nested prototypes, counts) and checked by wf_proto and strreg_proto (register-form string keys fed by LOADK) in Coq; " +
 		"sources: every .lua under _lua5.1-tests and _glua-tests, random programs (all statement kinds at all block positions, goto shapes, closures/upvalues, varargs, methods, constructors, both for loops), adversarial size ladders; " +
+		"every generated program is also run as twins (constants padded above / across the RK range in every function, registers shifted, growing registry, used state) whose outcome must equal the plain run (Go-side; 1 in 16 padded twins is an ordinary case), and a sample of the sources is recompiled after the whole history and in fresh processes (same prototype required); " +
 		"plus opcode.go codec cases on boundary/random words. non-trivial = chunk with >= 8 instructions and at least one jump/skip, multi-word group or nested prototype (codec: word with all fields non-zero); distinct by Gallina term"
 	c := &ctx{w: w, rejected: map[string]int{}}
 	r := lib.NewRand(a.Seed)
